@@ -170,6 +170,38 @@ def shard(idx, n, tier, seed, binary):
         process(acc, w, ((t, " ") for t in tokseq.random_seqs(rng, nr // n, 5, 10)), "random_seqs")
         process(acc, w, ((list(s), "") for s in tokseq.mutants(rng, nr // n)), "mutants")
         process(acc, w, ((list(s), "") for s in tokseq.hostile_texts(rng, nr // n)), "hostile_texts")
+        # oracle (2): generated programs whose intended tree is known
+        from ..gen import prog as pg
+        from ..ref import jast
+        ng = (6000 if tier == "quick" else 150000) // n
+        for i in range(ng):
+            g = pg.Gen(runner.rng_for(seed, "c06-gen", idx, i), ill=0.0, err=0.02)
+            ast = g.program()
+            src = jast.to_source(ast)
+            want = jast.sexpr(ast)
+            acc.inc("evaluations")
+            acc.inc("generated_programs")
+            d = w.call({"op": "parse", "code": src}, timeout=60)
+            for parser in ("ir", "peg"):
+                got = (d.get(parser) or {}).get("tree")
+                if got == want:
+                    continue
+                if got is None:
+                    acc.violation({"oracle": "intended-tree", "what": "rejected", "parser": parser},
+                                  {"text": src, "core": src, "error": d.get(parser)})
+                    continue
+                cls = "other"
+                if RE_UNARY_OVER_MUL.search(got) and not RE_UNARY_OVER_MUL.search(want):
+                    cls = "unary-binds-looser-than-multiplicative-in-default-parser"
+                elif parser == "ir" and RE_UNARY_OVER_MUL.search(got):
+                    # a wanted -(a*b) elsewhere may mask it; confirm with the fully guarded text
+                    d2 = w.call({"op": "parse", "code": jast.to_source(ast, guard_unary=True)}, timeout=60)
+                    if (d2.get("ir") or {}).get("tree") == want:
+                        cls = "unary-binds-looser-than-multiplicative-in-default-parser"
+                acc.violation({"oracle": "intended-tree" if cls == "other" else "tree-differs", "class": cls, "parser": parser},
+                              {"text": src, "core": src, "want": want[:800], "got": got[:800]})
+            if (d.get("ir") or {}).get("tree") == want:
+                acc.add("distinct", runner.h64(want))
         if idx == 0:
             process(acc, w, ((list(s), "") for s in tokseq.VALID_PROGRAMS), "valid_programs")
             # every valid program must be accepted by all three parsers
